@@ -104,6 +104,7 @@ type Out struct {
 	PropsErr string            `json:"propserr,omitempty"`
 	MBytes   map[string]Res    `json:"mbytes,omitempty"`   // mapping.Unmarshal{Json,Yaml,Toml}Bytes
 	MReaders map[string]Res    `json:"mreaders,omitempty"` // mapping.Unmarshal{Json,Yaml,Toml}Reader
+	MCanon   map[string]Res    `json:"mcanon,omitempty"`   // the six entry points with WithCanonicalKeyFunc(strings.ToLower)
 	Conc     []MemberOut       `json:"conc,omitempty"`
 	Map      *Res              `json:"mapping,omitempty"`
 	Std      *Res              `json:"stdjson,omitempty"`
@@ -535,6 +536,16 @@ func runCase(c Case, dir string) (out Out) {
 			"json": run2(rt, func(t any) error { return mapping.UnmarshalJsonBytes([]byte(texts["json"]), t) }),
 			"yaml": run2(rt, func(t any) error { return mapping.UnmarshalYamlBytes([]byte(texts["yaml"]), t) }),
 			"toml": run2(rt, func(t any) error { return mapping.UnmarshalTomlBytes([]byte(texts["toml"]), t) }),
+		}
+		// the options given to the YAML / TOML entry points must reach the unmarshaler like those given to the JSON one
+		canon := mapping.WithCanonicalKeyFunc(strings.ToLower)
+		out.MCanon = map[string]Res{
+			"json": run(rt, func(t any) error { return mapping.UnmarshalJsonBytes([]byte(texts["json"]), t, canon) }),
+			"yaml": run(rt, func(t any) error { return mapping.UnmarshalYamlBytes([]byte(texts["yaml"]), t, canon) }),
+			"toml": run(rt, func(t any) error { return mapping.UnmarshalTomlBytes([]byte(texts["toml"]), t, canon) }),
+			"rjson": run(rt, func(t any) error { return mapping.UnmarshalJsonReader(strings.NewReader(texts["json"]), t, canon) }),
+			"ryaml": run(rt, func(t any) error { return mapping.UnmarshalYamlReader(strings.NewReader(texts["yaml"]), t, canon) }),
+			"rtoml": run(rt, func(t any) error { return mapping.UnmarshalTomlReader(strings.NewReader(texts["toml"]), t, canon) }),
 		}
 		out.MReaders = map[string]Res{
 			"json": run(rt, func(t any) error { return mapping.UnmarshalJsonReader(strings.NewReader(texts["json"]), t) }),
